@@ -889,6 +889,31 @@ macro_rules! call_open {
     }};
 }
 
+/// An expected-footer argument of the caller's own type: its conversion into `Option<Footer>` (which the library
+/// performs somewhere inside the call) itself uses the library - it presents a text to an entry point of
+/// ANOTHER protocol on the same thread (e.g. a footer looked up through a token-protected channel).
+#[derive(Clone, Copy)]
+pub struct ReFooter<'a> {
+    pub footer: Option<&'a str>,
+    pub other: Proto,
+    pub other_key: &'a [u8],
+    pub other_text: &'a str,
+}
+impl<'a> From<ReFooter<'a>> for Option<Footer<'a>> {
+    fn from(r: ReFooter<'a>) -> Self {
+        let _ = core_present(r.other, r.other_key, r.other_text, None, None);
+        r.footer.map(Footer::from)
+    }
+}
+macro_rules! call_open_refooter {
+    (yes, $V:ident, $P:ident, $m:ident, $tok:expr, $key:expr, $rf:expr) => {
+        Paseto::<$V, $P>::$m($tok, $key, $rf, None::<ImplicitAssertion>)
+    };
+    (no, $V:ident, $P:ident, $m:ident, $tok:expr, $key:expr, $rf:expr) => {
+        Paseto::<$V, $P>::$m($tok, $key, $rf)
+    };
+}
+
 // key construction; `$fail` is evaluated (and returned from the enclosing fn) if the material is unusable
 macro_rules! sym_key {
     ($V:ident, $bytes:expr, $k:ident, $fail:expr) => {
@@ -1181,6 +1206,16 @@ macro_rules! local_proto {
                 }
             }
 
+            /// core layer, the expected footer handed over as a caller type whose conversion re-enters the library
+            pub fn core_present_refooter(key: &[u8], token: &str, rf: ReFooter) -> Out<String> {
+                sym_key!($V, key, k, Out::Err(ErrClass::Harness("symmetric key must be 32 bytes".into())));
+                match guard(|| call_open_refooter!($ia, $V, Local, try_decrypt, token, &k, rf)) {
+                    Ok(Ok(m)) => Out::Ok(m),
+                    Ok(Err(e)) => Out::Err(class_core(&e)),
+                    Err(p) => Out::Panic(p),
+                }
+            }
+
             /// other legal call orders on the core builder: footer / assertion set BEFORE the payload, and a
             /// configured builder whose payload is set again before a second token
             pub fn core_issue_orders(key: &[u8], seed: &[u8], msg: &str, msg2: &str, footer: Option<&str>, assertion: Option<&str>) -> Vec<Out<String>> {
@@ -1353,6 +1388,22 @@ macro_rules! public_proto {
                     Err(e) => return Out::Err(class_core(&e)),
                 };
                 match guard(|| call_open!($ia, $V, Public, try_verify, token, &k, footer, assertion)) {
+                    Ok(Ok(m)) => Out::Ok(m),
+                    Ok(Err(e)) => Out::Err(class_core(&e)),
+                    Err(p) => Out::Panic(p),
+                }
+            }
+
+            /// core layer, the expected footer handed over as a caller type whose conversion re-enters the library
+            pub fn core_present_refooter(key: &[u8], token: &str, rf: ReFooter) -> Out<String> {
+                let Some(raw) = pub_key_raw!($kind, key) else {
+                    return Out::Err(ErrClass::Harness("public key material of the wrong length".into()));
+                };
+                let k = match pub_key_typed!($kind, $V, &raw) {
+                    Ok(k) => k,
+                    Err(e) => return Out::Err(class_core(&e)),
+                };
+                match guard(|| call_open_refooter!($ia, $V, Public, try_verify, token, &k, rf)) {
                     Ok(Ok(m)) => Out::Ok(m),
                     Ok(Err(e)) => Out::Err(class_core(&e)),
                     Err(p) => Out::Panic(p),
@@ -1563,6 +1614,11 @@ pub fn core_issue(p: Proto, key: &[u8], seed: &[u8], msg: &str, footer: Option<&
 /// Core layer: `Paseto::<V,P>::try_decrypt/try_verify`. `key` = symmetric / public key material.
 pub fn core_present(p: Proto, key: &[u8], token: &str, footer: Option<&str>, assertion: Option<&str>) -> Out<String> {
     dispatch!(p, core_present(key, token, footer, assertion))
+}
+
+/// Core layer with a re-entrant expected-footer argument (see `ReFooter`).
+pub fn core_present_refooter(p: Proto, key: &[u8], token: &str, rf: ReFooter) -> Out<String> {
+    dispatch!(p, core_present_refooter(key, token, rf))
 }
 
 /// All three accepting entry points of `p`, without harness thread-locals (see the per-protocol functions).
